@@ -115,7 +115,7 @@ def simple_cycles(edges):
     return out
 
 
-def gen_dag(rnd, *, cycle=None, pull_prob=0.25, parallel_prob=0.25, offsets=True, max_comps=5, orders=True, long_end=False, shipped=0.0):
+def gen_dag(rnd, *, cycle=None, pull_prob=0.25, parallel_prob=0.25, offsets=True, max_comps=5, orders=True, long_end=False, shipped=0.0, sparse=0.12):
     """random coupling graph of time components (DAG, optionally one delay-resolved back edge),
     pull-based components spliced into links. cycle in (None, 'sufficient')"""
     n = rnd.randint(2, max_comps)
@@ -194,9 +194,13 @@ def gen_dag(rnd, *, cycle=None, pull_prob=0.25, parallel_prob=0.25, offsets=True
                 comps[j]["nin"] += 1
         else:
             links.append(dict(src=[f"c{i}", 0], dst=[f"c{j}", dst_in], chain=chain))
+    if not cycle:
+        for c in comps:
+            if c["type"] == "time" and c["nout"] and rnd.random() < sparse:
+                c["publish_every"] = rnd.choice([2, 3])  # publishes only every 2nd/3rd step
     if shipped:
         for c in comps:
-            if c["type"] == "time" and rnd.random() < shipped:
+            if c["type"] == "time" and rnd.random() < shipped and "publish_every" not in c:
                 c["impl"] = "shipped"  # CallbackGenerator / CallbackComponent / DebugConsumer in this role
                 c["steps"] = [c["steps"][0]]
     order = list(range(len(comps)))
